@@ -504,6 +504,17 @@ func TestC18(t *testing.T) {
 			if len(tx) > 1 {
 				wraps = append(wraps, tx[:1]+"_"+tx[1:], tx[:len(tx)-1]+"_"+tx[len(tx)-1:])
 			}
+			// one character replaced by a rune that equals it modulo 256 or 65536 (U+0131 for '1', U+012F for '/', ...) -
+			// what a parser that narrows runes to bytes would read as the original
+			for pos, c := range []byte(tx) {
+				for _, k := range []rune{0x100, 0x200, 0x300, 0x2000, 0xff00, 0x10000, 0x20000} {
+					r := rune(c) + k
+					if r >= 0xd800 && r <= 0xdfff {
+						continue
+					}
+					wraps = append(wraps, tx[:pos]+string(r)+tx[pos+1:])
+				}
+			}
 			for _, w := range wraps {
 				if w == tx {
 					continue
@@ -512,7 +523,7 @@ func TestC18(t *testing.T) {
 				do(c18Case{Kind: "indiv-parse", Text: w}, true)
 			}
 		}
-		rec.Exhaustive("24 valid address texts x 45 wrappings (quotes, brackets, padding, signs, radix prefixes, digit separators, escaped and doubled separators, full-width digits) through both parsers")
+		rec.Exhaustive("24 valid address texts x 45 wrappings and one-character substitutions by runes congruent modulo 256 / 65536 (quotes, brackets, padding, signs, radix prefixes, digit separators, escaped and doubled separators, full-width digits) through both parsers")
 	}
 	// 4. malformed strings from a grammar
 	common.Drive(t, rec, func(rt *rapid.T) c18Case {
